@@ -378,7 +378,8 @@ def b_thread_list_final(ctx, t):
     pre = [n for n in cfg.nodes if n.kind == "stmt" and isinstance(n.ast, ast.Assign) and src(n.ast.targets[0]) == "messages" and isinstance(n.ast.value, ast.BinOp)
            and isinstance(n.ast.value.op, ast.Add) and src(n.ast.value.right) == "messages"]
     if not pre:
-        raise AnalysisError("prepend of the stored thread not found", anchor=API + "::chat_completion::prepend")
+        ctx.note("C20.b: no `messages = <thread> + messages` statement (the prepend itself is decided by C20.b.prepend above)")
+        return
     P = pre[0]
     uses = [n for n in cfg.nodes if n.ast is not None and n is not P and any(isinstance(c, ast.Call) and src(c.func).endswith(("generate_async", "stream_async")) for c in walk_no_nested(n.ast))]
     later = cfg.reachable([m for m, _ in P.succ])
